@@ -32,7 +32,112 @@ ASSUMPTIONS = c12.ASSUMPTIONS + ["the stop is delivered through stop_all() from 
 BOUNDS = {"quick": dict(n=200, maxwin=24), "thorough": dict(n=1200, maxwin=40)}
 
 
+def check_sigint(case, rec):
+    """Thorough tier: a real `python -m auditok.cmdline - -O file` process fed
+    through a pipe by a slow writer and interrupted with SIGINT.  Oracle is
+    schedule-free: the printed detections must be split() of the audio found in
+    the -O file, exit status 0.  Wall-clock dependent: anything that looks like
+    a timing accident (interrupt before the handler exists, timeout) is counted
+    as inconclusive, never as a violation."""
+    import os
+    import signal
+    import subprocess
+    import threading
+    import time
+
+    import auditok
+
+    from ..common import REPO, tmpdir
+
+    recd = case["audio"]
+    data, thr = audio.synth(recd)
+    sr, sw, ch, B = recd["sr"], recd["sw"], recd["ch"], recd["B"]
+    w = B / sr
+    kmin, kmax, ksil, drop, strict = case["win"]
+    mind, maxd, sild = audio.split_durations(case["win"], w)
+    out_path = os.path.join(tmpdir(), f"sigint_{os.getpid()}_{case['delay']}.wav")
+    argv = [sys.executable, "-m", "auditok.cmdline", "-", "-r", str(sr), "-c", str(ch), "-w", str(sw),
+            "-a", repr(w), "-n", repr(mind), "-m", repr(maxd), "-s", repr(sild), "-e", repr(thr), "-O", out_path]
+    if drop:
+        argv.append("-d")
+    if strict:
+        argv.append("-R")
+    env = dict(os.environ, PYTHONPATH=REPO, MPLBACKEND="Agg")
+    p = subprocess.Popen(argv, stdin=subprocess.PIPE, stdout=subprocess.PIPE, stderr=subprocess.PIPE, env=env, cwd=REPO)
+    bps = sw * ch
+    blk = B * bps * 3 + 1  # pieces that do not line up with windows
+
+    def feed():
+        # a live source: nothing before the program is up, then the recording in
+        # small pieces, then digital silence for ever (only the interrupt ends it)
+        try:
+            t1 = time.time()
+            while not os.path.exists(out_path) and time.time() - t1 < 60:
+                time.sleep(0.005)
+            i = 0
+            while time.time() - t1 < 100:
+                piece = data[i: i + blk]
+                if len(piece) < blk:
+                    piece = piece + bytes(blk - len(piece))
+                p.stdin.write(piece)
+                p.stdin.flush()
+                i += blk
+                time.sleep(0.002)
+        except (OSError, ValueError):
+            pass
+
+    th = threading.Thread(target=feed, daemon=True)
+    th.start()
+    t0 = time.time()
+    while not os.path.exists(out_path) and time.time() - t0 < 60 and p.poll() is None:
+        time.sleep(0.01)
+    time.sleep(case["delay"] / 1000)
+    p.send_signal(signal.SIGINT)
+    try:
+        so, se = p.communicate(timeout=60)
+    except subprocess.TimeoutExpired:
+        p.kill()
+        rec.extra["sigint_inconclusive_timeout"] += 1
+        return
+    finally:
+        try:
+            p.stdin.close()
+        except OSError:
+            pass
+    try:
+        if p.returncode != 0:
+            if b"KeyboardInterrupt" in se and b"stop_all" not in se:
+                rec.extra["sigint_inconclusive_before_handler"] += 1
+                return
+            raise Violation(f"interrupted command line exited with status {p.returncode}: {se[-300:]!r}", case)
+        try:
+            params, frames = pipeline.read_wav(out_path)
+        except Exception as exc:  # noqa: BLE001
+            raise Violation(f"-O file after SIGINT is not a valid wav: {exc}", case)
+        if params != (sr, sw, ch):
+            raise Violation(f"-O header {params}", case)
+        if frames != (data + bytes(max(len(frames) - len(data), 0)))[: len(frames)]:
+            raise Violation("-O file is not a prefix of the audio fed to stdin", case)
+        reader = auditok.AudioReader(frames, block_dur=w, sampling_rate=sr, sample_width=sw, channels=ch)
+        regs = list(auditok.split(reader, min_dur=mind, max_dur=maxd, max_silence=sild, drop_trailing_silence=drop,
+                                  strict_min_dur=strict, energy_threshold=thr, use_channel=None))
+        want = "".join(f"{i} {r.start:.3f} {r.end:.3f}\n" for i, r in enumerate(regs, 1))
+        got = so.decode()
+        nblocks = len(frames) // (B * bps)
+        rec.note(case, 0 < len(frames) < len(data) and bool(regs), {"sigint_subprocess"},
+                 out={"read_windows": nblocks, "printed": got.count("\n")})
+        if got != want:
+            raise Violation(f"after SIGINT printed {got!r}, but split() of the {nblocks} windows saved gives {want!r}", case)
+    finally:
+        try:
+            os.remove(out_path)
+        except OSError:
+            pass
+
+
 def check_case(case, rec):
+    if case.get("t") == "sigint":
+        return check_sigint(case, rec)
     base = pipeline.run_pipeline(case, scheduled=True)
     try:
         c12.judge_threads(base, case)
@@ -98,10 +203,28 @@ def strategy(draw, maxwin):
     return c
 
 
+@st.composite
+def sigint_strategy(draw):
+    from ..gen import pattern as tokpat
+
+    win = draw(audio.split_windows(6))
+    pat = draw(tokpat([win[0], win[1], win[2], 0, 0, 0], 60))
+    reps = draw(st.integers(20, 40))
+    recd = {"sr": 1000, "sw": 2, "ch": 1, "B": 10, "pat": (pat + "0" * (win[2] + 1)) * reps, "tail": [0, 0],
+            "al": 800, "aq": 1, "salt": draw(st.integers(0, 1000)), "uc": None}
+    return {"t": "sigint", "audio": recd, "win": win, "delay": draw(st.integers(0, 1500))}
+
+
 def jobs(tier, seed):
     b = BOUNDS[tier]
-    return [{"name": f"hyp-{i}", "seed": seed * 1000 + i, "n": b["n"], "maxwin": b["maxwin"]} for i in range(16)]
+    out = [{"name": f"hyp-{i}", "kind": "hyp", "seed": seed * 1000 + i, "n": b["n"], "maxwin": b["maxwin"]} for i in range(16)]
+    if tier == "thorough":
+        out += [{"name": f"sigint-{i}", "kind": "sigint", "seed": seed * 1000 + 200 + i, "n": 6} for i in range(4)]
+    return out
 
 
 def run_job(job, rec):
-    hyp_run(sys.modules[__name__], strategy(job["maxwin"]), rec, job["seed"], job["n"])
+    if job.get("kind") == "sigint":
+        hyp_run(sys.modules[__name__], sigint_strategy(), rec, job["seed"], job["n"], shrink=False)
+    else:
+        hyp_run(sys.modules[__name__], strategy(job["maxwin"]), rec, job["seed"], job["n"])
